@@ -215,6 +215,24 @@ let do_str mask ops =
   Buffer.add_string b (Printf.sprintf " req=0,%d" (int_of_nat !k));
   print_endline (Buffer.contents b)
 
+(* S arena: Arena::alloc_oneshot / reset under the heap oracle; answers result/remaining bytes/live heap blocks *)
+let do_arena mask ops =
+  let (_, okh) = oracle_pair mask in
+  let b = Buffer.create 256 in
+  Buffer.add_string b "S arena";
+  let a = ref (Oomtxn.arena_init (cz_of_int 11)) and k = ref Oomtxn.O in
+  List.iter (fun tok ->
+    let arg = tail tok in
+    let op = match tok.[0] with
+      | 'a' -> Oomtxn.AAlloc (cz_of_string arg)
+      | 'r' -> Oomtxn.AReset (arg <> "0")
+      | _ -> failwith "aop" in
+    let ((r, a1), k1) = Oomtxn.arena_step okh op !a !k in
+    a := a1; k := k1;
+    Buffer.add_string b (Printf.sprintf " %d/%s/%d" (rc r) (Z.to_string (z_of_cz a1.Oomtxn.a_rem)) (List.length a1.Oomtxn.a_pre + List.length a1.Oomtxn.a_nxt))) ops;
+  Buffer.add_string b (Printf.sprintf " | end 0 req=0,%d" (int_of_nat !k));
+  print_endline (Buffer.contents b)
+
 (* R <owners csv|-> <homes bits|-> <stack-used bits|->: validate a register-allocator state dumped from a real pass run *)
 let do_racheck owners homes used =
   let bits s = if s = "-" then [] else List.init (String.length s) (fun i -> s.[i] = '1') in
@@ -231,18 +249,16 @@ let do_jit dual mask ops =
   let b = Buffer.create 256 in
   Buffer.add_string b (if dual then "S jitd" else "S jit");
   let cfg = { Oomtxn.c_gran = cz_of_int 64; c_pools = cz_of_int 1; c_bsize = cz_of_int 65536; c_pad = true; c_imm = false; c_var = Oomtxn.fixed } in
-  let st = ref (Oomtxn.init_state cfg) and s = ref Oomtxn.vms_init and kv = ref Oomtxn.O and kh = ref Oomtxn.O in
-  let spans = ref [] and blockmap = ref [] in
+  (* the whole joint state (C09 allocator, C15 views/records, block id -> handle map, request counters) lives in the extracted
+     model; every operation is one proven jit_step (C15_jit_step_inv / C15_jit_run_no_leak) *)
+  let j = ref (Oomtxn.jst_init cfg) in
+  let spans = ref [] in
+  let step op = let (res, j1) = Oomtxn.jit_step okv okh dual cfg op !j in j := j1; res in
   List.iter (fun tok ->
     let r =
       match tok.[0] with
       | 'j' ->
-        let nh = List.length !s.Oomtxn.vs_handles and nid = !st.Oomtxn.nextid in
-        let ((((st1, res), s1), kv1), kh1) = Oomtxn.jit_alloc okv okh dual cfg !st !s (cz_of_string (tail tok)) !kv !kh in
-        if List.length s1.Oomtxn.vs_handles > nh && (match List.nth s1.Oomtxn.vs_handles nh with Some _ -> true | None -> false) then
-          blockmap := (nid, nat_of_int nh) :: !blockmap;
-        st := st1; s := s1; kv := kv1; kh := kh1;
-        (match res with
+        (match step (Oomtxn.JAlloc (cz_of_string (tail tok))) with
          | Oomtxn.RAlloc (Oomtxn.Ok0, id, off, _) -> spans := !spans @ [Some (id, off)]; 0
          | Oomtxn.RAlloc (Oomtxn.OutOfMemory, _, _, _) -> spans := !spans @ [None]; 1
          | _ -> spans := !spans @ [None]; 2)
@@ -251,11 +267,8 @@ let do_jit dual mask ops =
         (match (if i < List.length !spans then List.nth !spans i else None) with
          | None -> 2
          | Some (id, off) ->
-           (* the proven joint step: C09's release x C15's deletion of the block's views (JitJointModel.jit_release) *)
-           let ((st1, res), s1) = Oomtxn.jit_release okv okh !blockmap cfg !st !s id off !kv !kh in
-           st := st1; s := s1;
-           spans := List.mapi (fun j x -> if j = i then None else x) !spans;
-           (match res with
+           spans := List.mapi (fun k x -> if k = i then None else x) !spans;
+           (match step (Oomtxn.JRelease (id, off)) with
             | Oomtxn.RRelease (Oomtxn.Ok0, _, _) -> 0
             | _ -> 2))
       | 'h' ->
@@ -265,16 +278,26 @@ let do_jit dual mask ops =
            (match (if i < List.length !spans then List.nth !spans i else None) with
             | None -> 2
             | Some (id, off) ->
-              (* the proven joint step (JitJointModel.jit_shrink) *)
-              let ((st1, res), s1) = Oomtxn.jit_shrink okv okh !blockmap cfg !st !s id off (cz_of_string ns) !kv !kh in
-              st := st1; s := s1;
-              (match res with
-               | Oomtxn.RShrink (Oomtxn.Ok0, _, _) -> if int_of_string ns = 0 then spans := List.mapi (fun j x -> if j = i then None else x) !spans; 0
+              (match step (Oomtxn.JShrink (id, off, cz_of_string ns)) with
+               | Oomtxn.RShrink (Oomtxn.Ok0, _, _) -> if int_of_string ns = 0 then spans := List.mapi (fun k x -> if k = i then None else x) !spans; 0
                | _ -> 2))
          | _ -> failwith "shrink")
+      | 'q' ->
+        let i = int_of_string (tail tok) in
+        (match (if i < List.length !spans then List.nth !spans i else None) with
+         | None -> 2
+         | Some (id, off) ->
+           (match step (Oomtxn.JQuery (id, off)) with
+            | Oomtxn.RQuery (Oomtxn.Ok0, _, _, _) -> 0
+            | _ -> 2))
+      | 'r' ->
+        (match step (Oomtxn.JReset (tail tok <> "0")) with
+         | Oomtxn.RReset -> spans := List.map (fun _ -> None) !spans; 0
+         | _ -> 2)
       | _ -> failwith "jitop" in
-    Buffer.add_string b (Printf.sprintf " %d/%d/%d/%d" r (List.length !s.Oomtxn.vs_views) (int_of_nat !s.Oomtxn.vs_heap) (List.length !st.Oomtxn.blocks))) ops;
-  Buffer.add_string b (Printf.sprintf " | end 0/0/0 req=%d,%d" (int_of_nat !kv) (int_of_nat !kh));
+    let s = !j.Oomtxn.j_vm and st = !j.Oomtxn.j_st in
+    Buffer.add_string b (Printf.sprintf " %d/%d/%d/%d" r (List.length s.Oomtxn.vs_views) (int_of_nat s.Oomtxn.vs_heap) (List.length st.Oomtxn.blocks))) ops;
+  Buffer.add_string b (Printf.sprintf " | end 0/0/0 req=%d,%d" (int_of_nat !j.Oomtxn.j_kv) (int_of_nat !j.Oomtxn.j_kh));
   print_endline (Buffer.contents b)
 
 let () =
@@ -293,6 +316,7 @@ let () =
         | "R" :: owners :: homes :: used :: _ -> do_racheck owners homes used
         | "S" :: "ra" :: mask :: ops -> do_ra mask ops
         | "S" :: "str" :: mask :: ops -> do_str mask ops
+        | "S" :: "arena" :: mask :: ops -> do_arena mask ops
         | "S" :: "jit" :: mask :: ops -> do_jit false mask ops
         | "S" :: "jitd" :: mask :: ops -> do_jit true mask ops
         | "S" :: "vm" :: mask :: ops -> do_vm false mask ops
